@@ -302,6 +302,7 @@ def run(ctx):
             # pass 1: which fields are accessed under the lock somewhere (= protected set)
             per_method = {}
             protected = collections.Counter()
+            written_locked = collections.Counter()   # contradiction rule: a field some method modifies under the lock is meant to be protected by it
             for f in methods:
                 b = F.body(f)
                 if b is None:
@@ -315,6 +316,9 @@ def run(ctx):
                             acc.append((x, id(x) in locked))
                             if id(x) in locked:
                                 protected[x['n']] += 1
+                                ak = x.get('a') or 'r'
+                                if not (f.get('ctor') or f.get('dtor')) and ak not in ('r', 'o') and not (ak.startswith('m:') and ak[2:] in READONLY_METHODS) and ak != 'e:as_const':
+                                    written_locked[x['n']] += 1
                 calls = []
                 for x in walk(b['body']):
                     if x.get('k') == 'CXXMemberCallExpr' and x.get('fid'):
@@ -339,8 +343,8 @@ def run(ctx):
                 fr = F.recs.get(ft)
                 if fr and any('std::mutex' in x['t'] for x in fr['fields']):
                     continue     # member object with its own mutex
-                if protected[n] * 2 <= total[n]:
-                    continue     # mostly accessed without the lock: not a field this mutex is meant to protect
+                if protected[n] * 2 <= total[n] and not written_locked[n]:
+                    continue     # mostly accessed without the lock and never modified under it: not a field this mutex is meant to protect
                 prot.add(n)
             ctx.note('%s protects %s' % (mname, sorted(x.split('::')[-1] for x in prot)))
             if not prot:
